@@ -903,7 +903,9 @@ func (m *MutableOverlayWorld) AddTag(id b6.FeatureID, tag b6.Tag) error {
 			m.index.Add(f, []string{tokenAfter})
 		}
 	} else {
-		base := m.base.FindFeatureByID(id)
+		// Include any tags we've already modified, as they're lost from
+		// view once the feature is copied into the overlay.
+		base := m.tags.WrapFeature(m.base.FindFeatureByID(id))
 		if base == nil {
 			return fmt.Errorf("No feature with ID %s", id)
 		}
@@ -913,6 +915,7 @@ func (m *MutableOverlayWorld) AddTag(id b6.FeatureID, tag b6.Tag) error {
 			m.features.AddFeature(f)
 			m.references.AddFeature(f)
 			m.index.Add(f, TokensForFeature(WrapFeature(f, m)))
+			delete(m.tags, id)
 		} else {
 			m.tags.ModifyOrAddTag(id, tag)
 		}
@@ -929,7 +932,7 @@ func (m *MutableOverlayWorld) RemoveTag(id b6.FeatureID, key string) error {
 		}
 		f.RemoveTag(key)
 	} else {
-		base := m.base.FindFeatureByID(id)
+		base := m.tags.WrapFeature(m.base.FindFeatureByID(id))
 		if base == nil {
 			return fmt.Errorf("No feature with ID %s", id)
 		}
@@ -940,6 +943,7 @@ func (m *MutableOverlayWorld) RemoveTag(id b6.FeatureID, key string) error {
 				m.features.AddFeature(f)
 				m.references.AddFeature(f)
 				m.index.Add(f, TokensForFeature(WrapFeature(f, m)))
+				delete(m.tags, id)
 			} else {
 				m.tags.RemoveTag(id, key)
 			}
